@@ -34,6 +34,45 @@
 /* the input window is readable (a NULL/any pointer is fine for an empty window) */
 #define RLE_DEC_DATA_OK(d) ((d)->size == 0 || __CPROVER_r_ok((d)->data, (d)->size))
 
+/* ---- encoder count preservation (C11), ghost state ---------------------------------------------
+ * G_put     : values handed to carquet_rle_encoder_put so far (ghost update at put's entry)
+ * G_emitted : values REPRESENTED by the run headers written so far: + (header >> 1) at an RLE header,
+ *             + 8 * (header >> 1) at a bit-packed header (ghost updates at the two write_varint sites)
+ * Necessary condition for decode(encode(v)) == v taken from the property: every value handed in is
+ * either still pending in the encoder or represented in an emitted run, in order, with nothing in
+ * between: G_emitted + bitpack_count + repeat_count == G_put.  Padding is legal only at the very end
+ * (flush): G_put <= G_emitted < G_put + 8.
+ * G_pad     : padding values (zeros that are not input values) placed into emitted groups so far (ghost
+ *             update at the padding statement of flush_bitpack).  Positions are preserved only if no run
+ *             is emitted after padding: every header site requires G_pad == 0, the invariant carries
+ *             G_pad == 0, and after the final flush G_emitted - G_pad == G_put with G_pad < 8.
+ * Sequences are limited to 2^31-1 values (Parquet page/chunk value counts are i32; the RLE header
+ * carries run_len << 1 in 32 bits). */
+#define RLE_ENC_MAX_VALUES ((int64_t)0x7FFFFFFF)
+#define RLE_ENC_INV(e) ( \
+  (e)->bit_width >= 0 && (e)->bit_width <= 32 && (e)->buffer != NULL && \
+  (e)->bitpack_count >= 0 && (e)->bitpack_count < 8 && (e)->bitpack_total == (e)->bitpack_count && \
+  (e)->repeat_count >= 0 && (e)->repeat_count <= RLE_ENC_MAX_VALUES && \
+  ((e)->has_prev || ((e)->repeat_count == 0 && (e)->bitpack_count == 0)) && \
+  ((e)->repeat_count >= 1 || (e)->bitpack_count == 0) && \
+  G_put >= 0 && G_put <= RLE_ENC_MAX_VALUES && G_emitted >= 0 && G_emitted <= G_put && \
+  G_pad == 0 && G_emitted + (e)->bitpack_count + (e)->repeat_count == G_put)
+
+#ifdef CQV
+/* ghost state, defined in stubs/rle_stubs.c (harnesses havoc it: zero-initialised ghosts would make the
+ * invariant trivially true on the first call only) */
+extern int64_t G_put, G_emitted, G_pad;
+extern unsigned rle_append_failures;      /* appends that reported failure (assumed buffer contract) */
+#define RLE_REC_CAP 64
+extern uint8_t rle_rec[RLE_REC_CAP];      /* bytes appended so far (only with -DRLE_STUB_RECORD) */
+extern size_t rle_rec_len;
+#ifdef RLE_CHECK_APPEND
+#define RLE_APPEND_POST(c) __CPROVER_ensures(c)
+#else
+#define RLE_APPEND_POST(c)
+#endif
+#endif
+
 /* ---- ULEB128 (spec side) ----------------------------------------------------------------------
  * SPEC_ULEB_LEN(b0..b4): number of bytes of the varint that starts with b0 (1..5), 0 if none of the
  * first five bytes terminates it.  SPEC_ULEB_VAL: its value (low 32 bits). */
